@@ -18,7 +18,8 @@ dst = os.path.join("/verif/seeded", sid)
 os.makedirs(dst, exist_ok=True)
 for f in os.listdir(src):
     if f.endswith(".go") or f in ("patch.diff", "notes.md"):
-        shutil.copy(os.path.join(src, f), os.path.join(dst, f))
+        if os.path.abspath(os.path.join(src, f)) != os.path.abspath(os.path.join(dst, f)):
+            shutil.copy(os.path.join(src, f), os.path.join(dst, f))
 caught, missed, keys = {}, [], {}
 for ck, v in ev.get("checks", {}).items():
     if v["exit"] == 1 and v["n_keys"] > 0:
